@@ -49,6 +49,8 @@ def run(chk):
                        'granular markings addressing every path of the object; frozen list of accepted variants as a regression oracle.')
     chk.trust('the generator is only as complete as spec/tables_* and the seeds in vf/objgen.py', 'spec/accepted_variants.json (frozen list of generator variants the library accepted when the model was frozen)')
     lexical_part(chk, 'C03')
+    from props.C02 import table_invariant
+    table_invariant(chk)          # what is accepted is decided by the class tables: vocabularies, reference target types, required flags == the frozen specification model (exhaustive)
     cs = [K.validate_type_contract(), K.integer_clean_contract(), K.integer_clean_contract('bool'), KP.dict_to_stix2_contract()] + [K.order_contract(*row) for row in K.ORDER_TABLE]
     cs += [K.hashes_clean_contract(), K.list_clean_contract(), K.reference_clean_contract(), K.enum_clean_contract(), K.hex_clean_contract(), K.dictionary_clean_contract(), K.float_clean_contract(),
            K.observable_clean_contract(), K.extensions_clean_contract()]        # acceptance of valid values rests on every cleaner
